@@ -58,7 +58,7 @@ def frames():
     return dict(new=new, old=old, rnd=rnd, unk=unk)
 
 
-BIG_N = 140_000
+BIG_N = 200_000
 
 
 def big_frame():
@@ -249,7 +249,7 @@ def run_workload(name: str, root: Path, inputs: Path) -> None:
     elif name == "overwrite":
         make(root / "cat", "new", overwrite=True, chunksize=25)
     elif name == "create_big":
-        # more records per patch than any write buffer the library may use (70000 per patch, chunks of 40000)
+        # more records per patch than any write buffer the library may use (100000 per patch, chunks of 40000: 20000 records of each patch arrive after the 80000th)
         data.make_catalog(root / "cat", big_frame(), centers(), overwrite=False, chunksize=40000)
     elif name == "meta":
         yaw.Catalog(root / "cat", max_workers=1)
